@@ -269,6 +269,8 @@ def templates():
     @reg("cat2")
     def _(p, a):
         b = p.sibling(a)
+        if hasattr(a, "qtype") and getattr(a, "axis", None) is not None and p.rng.random() < 0.35:
+            b = a.clone() if p.rng.random() < 0.5 else a  # identical per-axis scales, every dim (the kept axis included)
         d = int(p.rng.integers(0, max(1, a.ndim)))
         return lambda: torch.cat([a, b], dim=d)
 
@@ -557,7 +559,13 @@ def templates():
         # a is the weight, a fresh activation is the input
         if a.ndim != 2:
             return lambda: F.linear(a, a)
-        x, _k = p.fresh((int(p.rng.integers(1, 20)), a.shape[1]), ["act8", "acte4", "acte5", "plain"][p.rng.integers(4)])
+        xk = ["act8", "acte4", "acte5", "plain"][p.rng.integers(4)]
+        if xk == "plain" and p.rng.random() < 0.4:
+            # large float activations: the product with the (small) dequantized weight is representable, a sum taken in
+            # raw code units before the weight scale is applied may not be in half precision
+            x = p.randn((int(p.rng.integers(1, 20)), a.shape[1]), mag=float(p.rng.choice([100.0, 400.0])))
+        else:
+            x, _k = p.fresh((int(p.rng.integers(1, 20)), a.shape[1]), xk)
         return lambda: F.linear(x, a)
 
     @reg("conv2d")
